@@ -1,7 +1,7 @@
 (* Proofs about LBQModel (C07, C09), part 1: thread-table facts, the case analysis of one step,
    and the first invariants: distinct thread ids, (operation, pc) well-formedness, the lock
    discipline (every thread inside a critical section owns the mutex; the owner is inside a
-   critical section; reader count = readers inside; no run-time error). *)
+   critical section; reader count = readers inside). *)
 From Ekit Require Import Common Conc LBQModel.
 From Coq Require Import ZifyBool Arith PeanoNat.
 
@@ -183,8 +183,7 @@ Record inv1 (c : lbq_cfg) : Prop := {
   (* the owner is a call in flight that is inside a critical section *)
   i_owner : forall t, q_wlock c = Some t -> exists l, lookup t (q_thr c) = Some l /\ in_cs (l_pc l) = true;
   i_readers : Z.of_nat (q_readers c) = count rd (q_thr c);
-  i_excl : q_wlock c <> None -> q_readers c = O;
-  i_bad : q_bad c = false
+  i_excl : q_wlock c <> None -> q_readers c = O
 }.
 
 Lemma inv1_init m : inv1 (lbq_init m).
@@ -227,9 +226,7 @@ Ltac step_cases H :=
       [ unfold step_q, mv, fin in H | unfold step_r, mv, fin in H ];
       destruct (l_pc l) eqn:Hpc; try discriminate H;
       break_match H; injection H as <- <-;
-      try match goal with
-          | E : l_op l = _ |- _ => exfalso; rewrite E in Hq; discriminate Hq
-          end
+      try (exfalso; cbn in Hq; discriminate Hq)
     | destruct (lookup t (q_thr c)) as [l|] eqn:Hl; [|discriminate H];
       unfold mv in H; break_match H; injection H as <- <-
     | destruct (lookup t (q_thr c)) as [l|] eqn:Hl; [|discriminate H];
@@ -269,11 +266,10 @@ Arguments tids : simpl never.
 
 (* inv1 only looks at the thread table, the mutex and the error flag *)
 Lemma inv1_same c c2 :
-  inv1 c -> q_thr c2 = q_thr c -> q_wlock c2 = q_wlock c -> q_readers c2 = q_readers c ->
-  q_bad c2 = q_bad c -> inv1 c2.
+  inv1 c -> q_thr c2 = q_thr c -> q_wlock c2 = q_wlock c -> q_readers c2 = q_readers c -> inv1 c2.
 Proof.
-  intros [A1 A2 A3 A4 A5 A6 A7] E1 E2 E3 E4.
-  constructor; rewrite ?E1, ?E2, ?E3, ?E4; assumption.
+  intros [A1 A2 A3 A4 A5 A6] E1 E2 E3.
+  constructor; rewrite ?E1, ?E2, ?E3; assumption.
 Qed.
 
 (* a move of thread t that neither enters nor leaves a critical section *)
@@ -283,7 +279,7 @@ Lemma inv1_move c t l l' :
   pc_ok (l_op l') (l_pc l') = true ->
   inv1 (set_thr c (update t l' (q_thr c))).
 Proof.
-  intros [A1 A2 A3 A4 A5 A6 A7] Hl Hcs Hrcs Hok.
+  intros [A1 A2 A3 A4 A5 A6] Hl Hcs Hrcs Hok.
   constructor; cbn.
   - rewrite tids_update. exact A1.
   - intros t2 l2 H2. inv_lookup H2; [exact Hok|eauto].
@@ -294,7 +290,6 @@ Proof.
     + exists l2. rewrite (lookup_update_other _ _ _ _ _ Hne). auto.
   - rewrite (count_update _ rd t l' l _ Hl). unfold rd at 2 3. rewrite Hrcs. lia.
   - exact A6.
-  - exact A7.
 Qed.
 
 (* c.mutex.Lock() *)
@@ -304,7 +299,7 @@ Lemma inv1_acquire c t l l' :
   in_cs (l_pc l') = true -> in_rcs (l_pc l') = false -> pc_ok (l_op l') (l_pc l') = true ->
   inv1 (set_thr (set_wlock c (Some t)) (update t l' (q_thr c))).
 Proof.
-  intros [A1 A2 A3 A4 A5 A6 A7] Hl Hw Hr Hcs Hrcs Hcs' Hrcs' Hok.
+  intros [A1 A2 A3 A4 A5 A6] Hl Hw Hr Hcs Hrcs Hcs' Hrcs' Hok.
   constructor; cbn.
   - rewrite tids_update. exact A1.
   - intros t2 l2 H2. inv_lookup H2; [exact Hok|eauto].
@@ -313,7 +308,6 @@ Proof.
   - intros t2 E. injection E as <-. exists l'. rewrite (lookup_update_same _ _ _ _ _ Hl). auto.
   - rewrite (count_update _ rd t l' l _ Hl). unfold rd at 2 3. rewrite Hrcs, Hrcs'. lia.
   - intros _. exact Hr.
-  - exact A7.
 Qed.
 
 (* c.l.Unlock() by a thread inside its critical section *)
@@ -324,7 +318,7 @@ Lemma inv1_release c t l l' :
 Proof.
   intros I Hl Hcs Hcs' Hrcs' Hok.
   pose proof (i_cs c I _ _ Hl Hcs) as Hw. rewrite (unlock_owned _ _ Hw).
-  destruct I as [A1 A2 A3 A4 A5 A6 A7].
+  destruct I as [A1 A2 A3 A4 A5 A6].
   assert (Hrcs : in_rcs (l_pc l) = false) by (destruct (l_pc l); cbn in Hcs |- *; congruence).
   constructor; cbn.
   - rewrite tids_update. exact A1.
@@ -334,7 +328,6 @@ Proof.
   - discriminate.
   - rewrite (count_update _ rd t l' l _ Hl). unfold rd at 2 3. rewrite Hrcs, Hrcs'. lia.
   - congruence.
-  - exact A7.
 Qed.
 
 (* a call that is outside the critical sections returns *)
@@ -342,7 +335,7 @@ Lemma inv1_remove c t l :
   inv1 c -> lookup t (q_thr c) = Some l -> in_cs (l_pc l) = false -> in_rcs (l_pc l) = false ->
   inv1 (set_thr c (remove t (q_thr c))).
 Proof.
-  intros [A1 A2 A3 A4 A5 A6 A7] Hl Hcs Hrcs.
+  intros [A1 A2 A3 A4 A5 A6] Hl Hcs Hrcs.
   constructor; cbn.
   - apply nodup_remove. exact A1.
   - intros t2 l2 H2. inv_lookup H2. eauto.
@@ -352,13 +345,12 @@ Proof.
     exists l2. rewrite (lookup_remove_other _ _ _ Hne). auto.
   - rewrite (count_remove _ rd t l _ Hl). unfold rd at 2. rewrite Hrcs. lia.
   - exact A6.
-  - exact A7.
 Qed.
 
 Lemma inv1_spawn c t o :
   inv1 c -> lookup t (q_thr c) = None -> inv1 (set_thr c (spawn t (new_loc o) (q_thr c))).
 Proof.
-  intros [A1 A2 A3 A4 A5 A6 A7] Hl.
+  intros [A1 A2 A3 A4 A5 A6] Hl.
   constructor; cbn.
   - apply nodup_spawn; assumption.
   - intros t2 l2 H2. inv_lookup H2; [destruct o; reflexivity|eauto].
@@ -367,7 +359,6 @@ Proof.
     exists l2. rewrite lookup_spawn, H2. auto.
   - rewrite count_spawn. replace (rd (new_loc o)) with false by (destruct o; reflexivity). lia.
   - exact A6.
-  - exact A7.
 Qed.
 
 (* c.mutex.RLock() *)
@@ -377,7 +368,7 @@ Lemma inv1_racquire c t l l' :
   in_cs (l_pc l') = false -> in_rcs (l_pc l') = true -> pc_ok (l_op l') (l_pc l') = true ->
   inv1 (set_thr (set_readers c (S (q_readers c))) (update t l' (q_thr c))).
 Proof.
-  intros [A1 A2 A3 A4 A5 A6 A7] Hl Hw Hcs Hrcs Hcs' Hrcs' Hok.
+  intros [A1 A2 A3 A4 A5 A6] Hl Hw Hcs Hrcs Hcs' Hrcs' Hok.
   constructor; cbn.
   - rewrite tids_update. exact A1.
   - intros t2 l2 H2. inv_lookup H2; [exact Hok|eauto].
@@ -385,7 +376,6 @@ Proof.
   - congruence.
   - rewrite (count_update _ rd t l' l _ Hl). unfold rd at 2 3. rewrite Hrcs, Hrcs'. lia.
   - congruence.
-  - exact A7.
 Qed.
 
 (* the deferred RUnlock + return *)
@@ -395,7 +385,7 @@ Lemma inv1_rrelease c t l :
 Proof.
   intros I Hl Hrcs.
   pose proof (count_pos_lookup rd t l _ Hl Hrcs) as Hpos.
-  destruct I as [A1 A2 A3 A4 A5 A6 A7].
+  destruct I as [A1 A2 A3 A4 A5 A6].
   unfold runlock. destruct (q_readers c) as [|n] eqn:En; [cbn in A5; lia|].
   assert (Hcs : in_cs (l_pc l) = false) by (destruct (l_pc l); cbn in Hrcs |- *; congruence).
   constructor; cbn.
@@ -407,14 +397,13 @@ Proof.
     exists l2. rewrite (lookup_remove_other _ _ _ Hne). auto.
   - rewrite (count_remove _ rd t l _ Hl). unfold rd at 2. rewrite Hrcs. lia.
   - intros Hw. specialize (A6 Hw). discriminate.
-  - exact A7.
 Qed.
 
 (* close(old): parked threads move to `case <-signal:` *)
 Lemma inv1_wake c k g :
   inv1 c -> inv1 (set_thr c (wake_all k g (q_thr c))).
 Proof.
-  intros [A1 A2 A3 A4 A5 A6 A7].
+  intros [A1 A2 A3 A4 A5 A6].
   constructor; cbn.
   - rewrite tids_wake_all. exact A1.
   - intros t2 l2 Hw. inv_lookup Hw. subst l2. rewrite wake1_op.
@@ -428,5 +417,68 @@ Proof.
   - rewrite count_wake_all; [exact A5|].
     intros l. unfold rd. destruct (wake1_pc k g l) as [[_ [Hp ->]]|[_ ->]]; [rewrite Hp|]; reflexivity.
   - exact A6.
-  - exact A7.
+Qed.
+
+Lemma q_thr_set_cur c k g : q_thr (set_cur c k g) = q_thr c. Proof. destruct k; reflexivity. Qed.
+Lemma q_wlock_set_cur c k g : q_wlock (set_cur c k g) = q_wlock c. Proof. destruct k; reflexivity. Qed.
+Lemma q_readers_set_cur c k g : q_readers (set_cur c k g) = q_readers c. Proof. destruct k; reflexivity. Qed.
+Lemma q_items_set_cur c k g : q_items (set_cur c k g) = q_items c. Proof. destruct k; reflexivity. Qed.
+Lemma q_max_set_cur c k g : q_max (set_cur c k g) = q_max c. Proof. destruct k; reflexivity. Qed.
+Lemma q_hist_set_cur c k g : q_hist (set_cur c k g) = q_hist c. Proof. destruct k; reflexivity. Qed.
+Lemma q_bad_set_cur c k g : q_bad (set_cur c k g) = q_bad c. Proof. destruct k; reflexivity. Qed.
+Lemma q_thr_add_closed c k g : q_thr (add_closed c k g) = q_thr c. Proof. destruct k; reflexivity. Qed.
+Lemma q_wlock_add_closed c k g : q_wlock (add_closed c k g) = q_wlock c. Proof. destruct k; reflexivity. Qed.
+Lemma q_readers_add_closed c k g : q_readers (add_closed c k g) = q_readers c. Proof. destruct k; reflexivity. Qed.
+Lemma q_items_add_closed c k g : q_items (add_closed c k g) = q_items c. Proof. destruct k; reflexivity. Qed.
+Lemma q_max_add_closed c k g : q_max (add_closed c k g) = q_max c. Proof. destruct k; reflexivity. Qed.
+Lemma q_hist_add_closed c k g : q_hist (add_closed c k g) = q_hist c. Proof. destruct k; reflexivity. Qed.
+Lemma q_bad_add_closed c k g : q_bad (add_closed c k g) = q_bad c. Proof. destruct k; reflexivity. Qed.
+
+Lemma inv1_step c e c' obs : inv1 c -> lbq_exec1 c e = Some (c', obs) -> inv1 c'.
+Proof.
+  intros I H. pose proof (i_nodup c I) as Hnd.
+  step_cases H.
+  all: pose proof (fun l0 H0 => i_pcok c I t l0 H0) as Hok.
+  all: try (specialize (Hok _ Hl)).
+  all: try (apply andb_true_iff in E; destruct E as [E Ec]; apply andb_true_iff in E; destruct E as [Eq Ep];
+            apply pc_eqb_eq in Ep).
+  all: try (apply pc_eqb_eq in E0).
+  all: try (assert (Hpk : l_pc l <> PParked) by (intros Hx; apply pc_eqb_eq in Hx; congruence)).
+  all: try lazymatch goal with
+       | |- inv1 (add_hist (set_thr _ (spawn _ _ _)) _) =>
+         eapply inv1_same; [ apply (inv1_spawn c t o I Hl) | reflexivity .. ]
+       | |- inv1 (set_thr (set_wlock _ (Some _)) (update _ ?l' _)) =>
+         apply (inv1_acquire c t l l' I Hl); cbn; rewrite ?Hpc; cbn; first [reflexivity | assumption]
+       | |- inv1 (set_thr (unlock _) (update _ ?l' _)) =>
+         apply (inv1_release c t l l' I Hl); cbn; rewrite ?Hpc; cbn; first [reflexivity | assumption]
+       | |- inv1 (set_thr (set_readers _ (S _)) (update _ ?l' _)) =>
+         apply (inv1_racquire c t l l' I Hl); cbn; rewrite ?Hpc; cbn;
+         first [reflexivity | assumption | rewrite Hq; reflexivity]
+       | |- context [runlock] =>
+         eapply inv1_same; [ apply (inv1_rrelease c t l I Hl); rewrite Hpc; reflexivity | reflexivity .. ]
+       | |- context [remove] =>
+         eapply inv1_same; [ apply (inv1_remove c t l I Hl); rewrite Hpc; reflexivity | reflexivity .. ]
+       | |- context [wake_all] =>
+         eapply inv1_same;
+         [ apply (inv1_wake (set_thr c (update t (set_pc l PRet) (q_thr c)))), (inv1_move c t l (set_pc l PRet) I Hl);
+           cbn; rewrite ?Hpc; cbn; first [reflexivity | assumption]
+         | cbn; rewrite ?q_thr_add_closed, ?q_wlock_add_closed, ?q_readers_add_closed; reflexivity .. ]
+       | |- inv1 (set_thr _ (update _ ?l' _)) =>
+         eapply inv1_same;
+         [ eapply (inv1_move c t l l' I Hl); cbn; rewrite ?Hpc; cbn;
+           first [reflexivity | assumption | rewrite ?Hq; reflexivity
+                 | (match goal with E : l_op _ = _ |- _ => rewrite E; reflexivity end)]
+         | cbn; rewrite ?q_thr_set_cur, ?q_wlock_set_cur, ?q_readers_set_cur; reflexivity .. ]
+       end.
+  - apply (inv1_move c t l _ I Hl); cbn; rewrite ?Ep; cbn; first [reflexivity | assumption].
+  - rewrite E0 in Hok. cbn in Hok.
+    apply (inv1_move c t l _ I Hl); cbn; rewrite ?E0; cbn; first [reflexivity | assumption].
+Qed.
+
+Lemma inv1_reachable m evs c : exec lbq_step (lbq_init m) evs = Some c -> inv1 c.
+Proof.
+  apply (invariant_reachable _ _ lbq_step inv1); [|apply inv1_init].
+  intros c0 e c1 I H. unfold lbq_step in H.
+  destruct (lbq_exec1 c0 e) as [[c2 obs]|] eqn:E; [|discriminate].
+  injection H as <-. eapply inv1_step; eassumption.
 Qed.
